@@ -1,6 +1,7 @@
 /- Key types: the canonical form of a well-typed value is the value itself. -/
 import BorshModel.Canon
 import BorshModel.Lemmas.Induct
+import BorshModel.Lemmas.SortLaws
 namespace Borsh
 
 theorem map_id_of {f : Val → Val} (vs : List Val) (h : ∀ v ∈ vs, f v = v) : vs.map f = vs := by
@@ -34,8 +35,37 @@ theorem canon_id_all :
       simp only [HasTy, Bool.and_eq_true, beq_iff_eq] at hv
       exact absurd hv.1.1 hk.1
     | _ => simp [HasTy] at hv
-  case h_set => intro k t _ hk; simp [keyTy] at hk
-  case h_map => intro k a b _ _ hk; simp [keyTy] at hk
+  case h_set =>
+    intro k t ih hk v hv
+    simp only [keyTy, Bool.and_eq_true, beq_iff_eq] at hk
+    obtain ⟨hkk, hkt⟩ := hk
+    subst hkk
+    cases v with
+    | list vs =>
+      simp only [HasTy, Bool.and_eq_true] at hv
+      have hall : ∀ w ∈ vs, HasTy t w = true := by simpa using hv.1
+      simp only [canon]
+      rw [sortByKey_of_sa id vs hv.2, map_id_of vs (fun w hw => ih hkt w (hall w hw))]
+    | _ => simp [HasTy] at hv
+  case h_map =>
+    intro k a b iha ihb hk v hv
+    simp only [keyTy, Bool.and_eq_true, beq_iff_eq] at hk
+    obtain ⟨⟨hkk, hka⟩, hkb⟩ := hk
+    subst hkk
+    cases v with
+    | list es =>
+      simp only [HasTy, Bool.and_eq_true] at hv
+      simp only [canon]
+      rw [sortByKey_of_sa entryKey es hv.2]
+      congr 1
+      apply map_id_of
+      intro e he
+      have := (List.all_eq_true.mp hv.1) e he
+      match e, this with
+      | .list [x, y], this =>
+        simp only [Bool.and_eq_true] at this
+        simp only [canonEntry, iha hka x this.1, ihb hkb y this.2]
+    | _ => simp [HasTy] at hv
   case h_array =>
     intro n t ih hk v hv
     simp only [keyTy] at hk
